@@ -2,13 +2,17 @@
 """print the prompt given to a fresh sub-agent that seeds a breaking change for one property"""
 import json, sys
 pid = sys.argv[1]
+rnd = sys.argv[2] if len(sys.argv) > 2 else ''
+hint = sys.argv[3] if len(sys.argv) > 3 else ''
+WT = '/tmp/wt_%s%s' % (pid, rnd)
+OUT = '/tmp/seed_out/%s%s' % (pid, rnd)
 for l in open('/verif/properties.jsonl'):
     d = json.loads(l)
     if d['id'] == pid:
         break
 print(f"""You are helping to evaluate a verification effort for the Python library `sempler` (juangamella/sempler: sampling from linear-Gaussian and additive-noise structural causal models, DAG/CPDAG utilities, symbolic Gaussian conditioning).
 
-You have your OWN scratch git worktree of the repository at /tmp/wt_{pid} . Work ONLY there. Never modify /repo, and do not read anything under /verif (it is off limits; your work must be independent of it).
+You have your OWN scratch git worktree of the repository at {WT} . Work ONLY there. Never modify /repo, and do not read anything under /verif (it is off limits; your work must be independent of it).
 
 The library is supposed to satisfy this property:
 
@@ -17,19 +21,19 @@ The library is supposed to satisfy this property:
   Quantified over: {d['quantifier']['text']}
   Relevant files: {', '.join(d['anchors']['files'])}
 
-YOUR TASK: produce ONE realistic change to the library source (under /tmp/wt_{pid}/sempler or /tmp/wt_{pid}/drf) that BREAKS this property, while the code still imports and the existing test-suite still passes. The change should look like something that could plausibly slip through code review (a refactoring gone slightly wrong, an "optimisation", an off-by-one, a dropped copy, a wrong tie-break, a changed comparison, ...). It must need something SPECIFIC to manifest - an unusual input (e.g. negative or cancelling weights, a particular graph shape with 4-5 nodes, a boundary value, seed 0, an integer-typed array, a particular order of arguments), a multi-step sequence of calls, or two cooperating sites that each look fine alone - NOT something that ordinary use or the existing tests would expose at once. Prefer subtle over blatant. Do not change tests. Do not add new dependencies.
+YOUR TASK: produce ONE realistic change to the library source (under {WT}/sempler or {WT}/drf) that BREAKS this property, while the code still imports and the existing test-suite still passes. The change should look like something that could plausibly slip through code review (a refactoring gone slightly wrong, an "optimisation", an off-by-one, a dropped copy, a wrong tie-break, a changed comparison, ...). It must need something SPECIFIC to manifest - an unusual input (e.g. negative or cancelling weights, a particular graph shape with 4-5 nodes, a boundary value, seed 0, an integer-typed array, a particular order of arguments), a multi-step sequence of calls, or two cooperating sites that each look fine alone - NOT something that ordinary use or the existing tests would expose at once. Prefer subtle over blatant. {('An earlier reviewer already tried this, so do something DIFFERENT (another function, another mechanism): ' + hint) if hint else ''} Do not change tests. Do not add new dependencies.
 
 How to run things (no network is available; everything needed is installed):
-  * interpreter: /venv/bin/python  (numpy etc. installed). Run from inside the worktree so that the worktree's copy of `sempler` is imported:  cd /tmp/wt_{pid} && /venv/bin/python your_script.py
+  * interpreter: /venv/bin/python  (numpy etc. installed). Run from inside the worktree so that the worktree's copy of `sempler` is imported:  cd {WT} && /venv/bin/python your_script.py
   * existing test-suite (must still pass, 104 tests pass on the unchanged tree, sempler/test/test_semi.py fails to import because rpy2 is absent - that is expected and unchanged):
-      cd /tmp/wt_{pid} && /venv/bin/python -m pytest -q -p no:cacheprovider -n 4 --timeout=900 --continue-on-collection-errors
+      cd {WT} && /venv/bin/python -m pytest -q -p no:cacheprovider -n 4 --timeout=900 --continue-on-collection-errors
     (takes about 2-3 minutes)
   * If the property involves sempler.semi / drf (needs R through rpy2, which is absent), write a small fake `rpy2` stand-in inside your demonstration so that the Python side can be exercised.
 
-DELIVERABLES - write them to /tmp/seed_out/{pid}/ :
-  1. patch.diff  - output of `git -C /tmp/wt_{pid} diff` (source change only; it must apply with `git apply` to a clean checkout of the same commit).
-  2. demo.py     - a small self-contained program (run as `cd <checkout> && /venv/bin/python /tmp/seed_out/{pid}/demo.py`, it MUST begin with `import sys, os; sys.path.insert(0, os.getcwd())` so that sempler is imported from the current directory and not from the installed copy) that exits 0 and prints PASS on the UNCHANGED tree and exits non-zero (prints FAIL and what went wrong) with your change applied. It should check the property itself on the specific input/sequence that triggers the problem (compute the expected answer independently, do not just compare to recorded output).
+DELIVERABLES - write them to {OUT}/ :
+  1. patch.diff  - output of `git -C {WT} diff` (source change only; it must apply with `git apply` to a clean checkout of the same commit).
+  2. demo.py     - a small self-contained program (run as `cd <checkout> && /venv/bin/python {OUT}/demo.py`, it MUST begin with `import sys, os; sys.path.insert(0, os.getcwd())` so that sempler is imported from the current directory and not from the installed copy) that exits 0 and prints PASS on the UNCHANGED tree and exits non-zero (prints FAIL and what went wrong) with your change applied. It should check the property itself on the specific input/sequence that triggers the problem (compute the expected answer independently, do not just compare to recorded output).
   3. notes.md    - 5-10 lines: what you changed, why it breaks the property, what is needed for it to manifest, why the existing tests do not notice.
 
-Before finishing, VERIFY all of it yourself: (a) with the change, the full existing test-suite passes (same 104 passed); (b) demo.py fails with the change; (c) `git -C /tmp/wt_{pid} stash` (or checkout) -> demo.py passes on the unchanged tree; then re-apply your change so the worktree ends with the change applied. Report briefly what you did and the results of (a),(b),(c).
+Before finishing, VERIFY all of it yourself: (a) with the change, the full existing test-suite passes (same 104 passed); (b) demo.py fails with the change; (c) `git -C {WT} stash` (or checkout) -> demo.py passes on the unchanged tree; then re-apply your change so the worktree ends with the change applied. Report briefly what you did and the results of (a),(b),(c).
 """)
